@@ -252,7 +252,7 @@ def rule_align_parse(prog, rep, tier, anchor="parse.function"):
     for n in ast.walk(fi.node):
         if isinstance(n, ast.GeneratorExp) or isinstance(n, ast.ListComp):
             gens = n.generators
-            pair_gen = [g for g in gens if isinstance(g.target, ast.Tuple) and isinstance(g.iter, ast.Tuple)]
+            pair_gen = [g for g in gens if isinstance(g.target, ast.Tuple) and isinstance(g.iter, (ast.Tuple, ast.IfExp))]
             idx_gen = [g for g in gens if isinstance(g.iter, ast.Call) and _call_name(g.iter) == "range"]
             if pair_gen and idx_gen:
                 consumers.append((n, pair_gen[0], idx_gen[0]))
@@ -268,7 +268,8 @@ def rule_align_parse(prog, rep, tier, anchor="parse.function"):
         # indexed expressions
         subs = [s for s in ast.walk(comp.elt) if isinstance(s, ast.Subscript) and isinstance(s.slice, ast.Name) and s.slice.id == ig.target.id]
         rng = ig.iter.args[-1] if ig.iter.args else None
-        loop = next((l for l in loops if dump(l.iter) == dump(pg.iter)), None)
+        pair_iters = [pg.iter] if isinstance(pg.iter, ast.Tuple) else [x for x in (pg.iter.body, pg.iter.orelse) if isinstance(x, ast.Tuple)]
+        loop = next((l for l in loops if any(dump(l.iter) == dump(pi) for pi in pair_iters)), None)
         if loop is None:
             rep.violation(Finding("ALIGN-parse", anchor, "pairs-differ",
                                   "the padding loop and the consumer iterate different (args, defaults) pairs: %s vs %s" % (src(loops[0].iter, 60), src(pg.iter, 60)), loc(prog, comp)))
